@@ -113,7 +113,27 @@ def gen_cases(ctx):
                                                   "kids": [{"t": "leaf", "id": base + k} for k in range(len(kinds))]})
         o = worlds.gen_opts(rng, allow=("repeat",))
         o["verbose"] = rng.choice([0, 1, 2])
-        cases.append(cw.Case(w, o))
+        label = None
+        if i % 6 == 1:
+            # layers of one stack that share their qualified name (classes a factory function returns, instances
+            # created with one name): bases without tests of their own take the name of a layer derived from them
+            used = set()
+            for m in w["modules"].values():
+                for st in m["suites"]:
+                    acc = []
+                    worlds.flat_leaves(st, 0, acc)
+                    used.update(lyr for _, lyr, _ in acc)
+            tops = [k for k in used if w["layers"][k]["kind"] != "unit" and w["layers"][k]["bases"]]
+            if tops:
+                top = rng.choice(sorted(tops))
+                for a in sorted(worlds.closure(w["layers"], top)):
+                    la = w["layers"][a]
+                    if a != top and a not in used and la["kind"] != "unit" and not la.get("falsy"):
+                        la["name"], la["module"] = w["layers"][top]["name"], w["layers"][top]["module"]
+                        label = "same-name"
+                o["repeat"] = rng.choice([1, 2, 3])
+                o.pop("decor", None)
+        cases.append(cw.Case(w, o, label or ""))
     return cases
 
 
